@@ -165,7 +165,7 @@ def run(ctx: Check) -> int:
 
     # 2. random schedules: longer runs, more faults, several scripts, both failure models
     max_f = ctx.n(3, 5)
-    for stream, mode, n in (("random-conn", "conn", ctx.n(200, 5000)), ("random-indep", "indep", ctx.n(120, 3000))):
+    for stream, mode, n in (("random-conn", "conn", ctx.n(160, 5000)), ("random-indep", "indep", ctx.n(100, 3000))):
         for _ in range(n):
             script = rng.choice(SCRIPTS)
             r = random.Random(rng.random())
@@ -173,7 +173,7 @@ def run(ctx: Check) -> int:
             fu = r.choice([3.0, 8.0])
             hz = fu + 30.0
             res = simulate([tuple(e) for e in script], [], mode=mode, rnd=r, max_faults=mf, ev_window=60,
-                           horizon=hz, fault_until=fu, min_time=r.choice([0.0, fu + 7.0]),
+                           horizon=hz, fault_until=fu, min_time=r.choice([0.0, 0.0, 0.0, fu + 7.0]),
                            probs={"send": r.choice([0.02, 0.05, 0.15, 0.3]), "conn": r.choice([0.1, 0.4])})
             add(stream, {"script": script, "prefix": [v for _, _, v in res.choices], "mode": mode, "ev_window": 60,
                          "max_faults": mf, "horizon": hz, "fault_until": fu, "min_time": res.t_end - 0.45}, res)
@@ -218,7 +218,7 @@ def run(ctx: Check) -> int:
 
     # self-test: a model without "send while CatchingUp" must reject real traces
     if first_cases and first_out:
-        k = min(len(first_cases), 150)
+        k = min(len(first_cases), 100)
         ctx.selftest("explore", "Runner", first_cases[:k],
                      lambda c: ["mutant\t" + " ".join(_tokens(results[id(c)]))], first_out[:k])
         # impossible traces must be rejected: a changed sequence number, a message answered twice
@@ -233,12 +233,12 @@ def run(ctx: Check) -> int:
                 j = ss[len(ss) // 2]
                 a, b = toks[j].split(":")
                 corrupt.append(toks[:j] + [f"{a}:{int(b) + 1}"] + toks[j + 1:])
-            if len(corrupt) >= 120:
+            if len(corrupt) >= ctx.n(60, 120):
                 break
         ctx.correspond("corrupted-traces", "Runner", corrupt, lambda t: ["verdict\t" + " ".join(t)],
                        lambda t: ["rej"])
         # model-side verdicts on the same traces vs the oracle (diagnostic: both should name the same runs)
-        sample = [c for c in first_cases if c["_nontrivial"]][:ctx.n(200, 2000)]
+        sample = [c for c in first_cases if c["_nontrivial"]][:ctx.n(120, 2000)]
         flags = drive("Runner", [["flags\t" + " ".join(_tokens(results[id(c)]))] for c in sample])
         from harness.runner_oracle import check
         agree = 0
